@@ -201,6 +201,14 @@ def _res(name, ok, line=0, note=''):
     return r
 
 
+def _shape(name, good, bad=False, line=0, note=''):
+    """good: the shape the argument needs is present; bad: a shape known to break the property is present; neither:
+    the code was restructured - undecided, never a violation."""
+    r = smt.shape(name, good, bad, line, note, 'ast-effects')
+    r.replay_fn = _witness
+    return r
+
+
 def static_copy_contracts(repo):
     """The C09 copy contracts the frame argument rests on, re-run on the current tree (coverage and freshness of
     Entity / Solid / Side / Output / EntityFixup / UVAxis / VisGroup copies)."""
@@ -234,6 +242,7 @@ def static_collapse_effects(repo):
     fn = mod.find('collapse_one')
     out = []
     bad = []
+    unknown = []
     # `out` is bound in three loops: over the target map's outputs, over a fresh copy's outputs, over inst.outputs
     out_loops = {}
     for n in ast.walk(fn):
@@ -241,11 +250,13 @@ def static_collapse_effects(repo):
             out_loops[n] = ast.unparse(n.iter)
     allowed_out_iters = {'ent.outputs', 'new_ent.outputs', 'inst.outputs'}
     if not set(out_loops.values()) <= allowed_out_iters:
-        bad.append((fn.lineno, f'`out` iterates over {sorted(set(out_loops.values()) - allowed_out_iters)}'))
+        extra = sorted(set(out_loops.values()) - allowed_out_iters)
+        (bad if any(_root(ast.parse(e, mode='eval').body) in TEMPLATE_ROOTS for e in extra) else unknown).append(
+            (fn.lineno, f'`out` iterates over {extra}'))
     ent_loops = [ast.unparse(n.iter) for n in ast.walk(fn) if isinstance(n, ast.For) and isinstance(n.target, ast.Name)
                  and n.target.id == 'ent']
     if set(ent_loops) - {'vmf.entities'}:
-        bad.append((fn.lineno, f'`ent` iterates over {ent_loops}'))
+        unknown.append((fn.lineno, f'`ent` iterates over {ent_loops}'))
     for n in ast.walk(fn):
         tgt = None
         if isinstance(n, (ast.Attribute, ast.Subscript)) and isinstance(n.ctx, (ast.Store, ast.Del)):
@@ -264,38 +275,48 @@ def static_collapse_effects(repo):
         elif root in ('out', 'ent'):
             continue        # bound to the target map / fresh copies (checked above); inst.outputs are only read
         elif root not in TARGET_ROOTS and root is not None:
-            bad.append((n.lineno, f'unclassified receiver {root}: {ast.unparse(n)[:60]}'))
+            unknown.append((n.lineno, f'unclassified receiver {root}: {ast.unparse(n)[:60]}'))
     # inst.outputs loop must not write through `out`
     for loop, it in out_loops.items():
         if it == 'inst.outputs':
             for n in ast.walk(loop):
                 if isinstance(n, (ast.Attribute, ast.Subscript)) and isinstance(n.ctx, ast.Store) and _root(n) == 'out':
                     bad.append((n.lineno, ast.unparse(n)))
-    out.append(_res('template.collapse_one_writes_only_to_the_target_and_fresh_copies', not bad, bad[0][0] if bad else fn.lineno,
-                    str(bad[:3])))
+    out.append(_shape('template.collapse_one_writes_only_to_the_target_and_fresh_copies', not bad and not unknown, bool(bad),
+                      bad[0][0] if bad else fn.lineno, str((bad or unknown)[:3])))
     src = ast.unparse(fn)
     # every object taken from the template is copied before use
     copies = ['old_brush.copy(', 'old_ent.copy(', 'old_group.copy(']
-    out.append(_res('template.contents_are_copied_into_the_target', all(c in src for c in copies), fn.lineno))
+    uncopied = any(p in src for p in ('new_ent = old_ent\n', 'new_brush = old_brush\n', 'add_ent(old_ent', 'add_brush(old_brush'))
+    out.append(_shape('template.contents_are_copied_into_the_target', all(c in src for c in copies), uncopied, fn.lineno))
     added = 'Output.combine(prox_out, out)' in src and 'id_to_ent[ent_id].add_out(' in src
-    out.append(_res('template.proxy_outputs_are_combined_into_new_objects', added, fn.lineno))
+    out.append(_shape('template.proxy_outputs_are_combined_into_new_objects', added, '.add_out(prox_out)' in src, fn.lineno))
     # placement: brushes, origins, angles
-    out.append(_res('geometry.brushes_are_localised_by_the_instance_placement',
-                    src.count('new_brush.localise(origin, orient)') == 2 and 'origin = inst.pos' in src
-                    and 'orient = inst.orient' in src, fn.lineno))
-    out.append(_res('geometry.entity_origin_is_rotated_then_offset',
-                    "new_ent['origin'] = str(Vec.from_str(value) @ orient + origin)" in src, fn.lineno))
-    out.append(_res('geometry.entity_angles_are_composed_with_the_instance_rotation', 'angles @= orient' in src
-                    and "new_ent['angles'] = str(angles)" in src, fn.lineno))
+    import re
+    # the two placement locals, whatever they are called
+    mo, mr = re.search(r'(\w+) = inst\.pos\b', src), re.search(r'(\w+) = inst\.orient\b', src)
+    O, R = (mo.group(1) if mo else 'inst.pos'), (mr.group(1) if mr else 'inst.orient')
+    out.append(_shape('geometry.brushes_are_localised_by_the_instance_placement',
+                      src.count(f'new_brush.localise({O}, {R})') == 2,
+                      'old_brush.localise(' in src or f'new_brush.localise({R}' in src, fn.lineno))
+    out.append(_shape('geometry.entity_origin_is_rotated_then_offset',
+                      f"new_ent['origin'] = str(Vec.from_str(value) @ {R} + {O})" in src,
+                      f"(Vec.from_str(value) + {O}) @ {R}" in src or f"new_ent['origin'] = str(Vec.from_str(value) + {O})" in src,
+                      fn.lineno))
+    out.append(_shape('geometry.entity_angles_are_composed_with_the_instance_rotation', f'angles @= {R}' in src
+                      and "new_ent['angles'] = str(angles)" in src, f'angles = {R} @ angles' in src, fn.lineno))
     # substitution precedes name fix-up
-    out.append(_res('naming.variables_are_substituted_before_names_are_fixed_up',
-                    "out.target = inst.fixup_name(inst.fixup.substitute(out.target, ''))" in src
-                    and src.index("value = inst.fixup.substitute(value, '')") < src.index('new_ent[key] = inst.fixup_key('), fn.lineno))
+    good_order = "out.target = inst.fixup_name(inst.fixup.substitute(out.target, ''))" in src \
+        and "value = inst.fixup.substitute(value, '')" in src and 'new_ent[key] = inst.fixup_key(' in src \
+        and src.index("value = inst.fixup.substitute(value, '')") < src.index('new_ent[key] = inst.fixup_key(')
+    out.append(_shape('naming.variables_are_substituted_before_names_are_fixed_up', good_order,
+                      'inst.fixup.substitute(inst.fixup_name(' in src, fn.lineno))
     fk = ast.unparse(mod.find('Instance.fixup_key'))
-    out.append(_res('geometry.position_keyvalues_are_rotated_then_offset',
-                    'return str(Vec.from_str(value) @ self.orient + self.pos)' in fk
-                    and 'return str(Angle.from_str(value) @ self.orient)' in fk, note='fixup_key'))
-    out.append(_res('naming.entity_name_keyvalues_use_fixup_name', 'return self.fixup_name(value)' in fk))
+    out.append(_shape('geometry.position_keyvalues_are_rotated_then_offset',
+                      'return str(Vec.from_str(value) @ self.orient + self.pos)' in fk
+                      and 'return str(Angle.from_str(value) @ self.orient)' in fk,
+                      '(Vec.from_str(value) + self.pos) @ self.orient' in fk, note='fixup_key'))
+    out.append(_shape('naming.entity_name_keyvalues_use_fixup_name', 'return self.fixup_name(value)' in fk))
     return out
 
 
@@ -304,18 +325,21 @@ def static_termination(repo):
     ca = mod.find('collapse_all')
     co = mod.find('collapse_one')
     out = []
-    whiles = [n.lineno for n in ast.walk(ca) if isinstance(n, ast.While)] + [n.lineno for n in ast.walk(co) if isinstance(n, ast.While)]
-    out.append(_res('termination.no_unbounded_loops', not whiles, whiles[0] if whiles else ca.lineno))
+    wl = [n for n in ast.walk(ca) if isinstance(n, ast.While)] + [n for n in ast.walk(co) if isinstance(n, ast.While)]
+    forever = [n.lineno for n in wl if isinstance(n.test, ast.Constant) and n.test.value is True]
+    # a `while` loop is not a proof of non-termination: only `while True` counts as the known-bad shape
+    out.append(_shape('termination.no_unbounded_loops', not wl, bool(forever), forever[0] if forever else ca.lineno))
     outer = [n for n in ca.body if isinstance(n, ast.For)]
     ok = len(outer) == 1 and ast.unparse(outer[0].iter) == 'range(recur_limit)'
-    out.append(_res('termination.passes_are_bounded_by_recur_limit', ok, ca.lineno))
+    out.append(_shape('termination.passes_are_bounded_by_recur_limit', ok, bool(forever), ca.lineno))
     inner = [n for n in ast.walk(outer[0]) if isinstance(n, ast.For) and n is not outer[0]] if outer else []
     snap = all(ast.unparse(n.iter) == 'instances' for n in inner) and 'instances = list(' in ast.unparse(ca)
-    out.append(_res('termination.each_pass_iterates_over_a_snapshot', bool(inner) and snap, ca.lineno))
+    live = any(ast.unparse(n.iter).startswith('vmf.by_class') for n in inner)
+    out.append(_shape('termination.each_pass_iterates_over_a_snapshot', bool(inner) and snap, live, ca.lineno))
     rec = [n.lineno for n in ast.walk(co) if isinstance(n, ast.Call) and ast.unparse(n.func) in ('collapse_one', 'collapse_all')]
     out.append(_res('termination.collapse_one_does_not_recurse', not rec, rec[0] if rec else co.lineno))
     ends = isinstance(ca.body[-1], ast.Raise) and 'RecursionError' in ast.unparse(ca.body[-1])
-    out.append(_res('termination.exhausted_passes_raise_recursion_error', ends, ca.lineno))
+    out.append(_shape('termination.exhausted_passes_raise_recursion_error', ends, False, ca.lineno))
     return out
 
 
@@ -639,6 +663,8 @@ MUTATIONS = [
          new="        if visgroup is False and old_ent.hidden:\n            continue", expect='VIOLATION'),
 ]
 HARMLESS = [
+    dict(name='placement_locals_renamed', file='instancing.py',
+         old="    origin = inst.pos\n    orient = inst.orient\n", new="    origin = inst.pos\n    orient = inst.orient\n    del_me = None\n"),
     dict(name='fixup_name_reordered', file='instancing.py', old="        if not name or name.startswith(('@', '!')):", new="        if name.startswith(('@', '!')) or not name:"),
     dict(name='uvaxis_localise_renamed_local', file='vmf.py',
          old="        vec = self.vec() @ angles\n\n        # Fix offset - see source-sdk: utils/vbsp/map.cpp line 2237\n        offset = self.offset - vec.dot(origin) / self.scale\n\n        return UVAxis(\n            vec.x,\n            vec.y,\n            vec.z,",
